@@ -243,6 +243,7 @@ impl Engine for DlEngine {
                     violate("fixpoint-differs", format!("a derived fact cannot be read back: {e}"));
                     break 'variants;
                 }
+                libeval::digest_mix(format!("{got:?}").as_bytes());
                 if got != want {
                     let missing: Vec<_> = want.difference(&got).take(3).collect();
                     let extra: Vec<_> = got.difference(&want).take(3).collect();
